@@ -141,6 +141,11 @@ def run(tier, seed, replay=None):
             x = np.array([[rng.randint(-12, 12) / 2.0 for _ in range(dim)] for _ in range(npts)])
             if all(np.linalg.norm(x[i + 1] - x[i]) > 0.4 for i in range(npts - 1)) and np.linalg.norm(x[0] - x[-1]) > 0.4:
                 break
+        # survey-like coordinates: the data far from the origin compared with the spacing of the points (first and last point
+        # agree to 6 digits without being the same point)
+        far_data = rng.random() < (0.7 if name == 'PERIODIC' else 0.15)
+        if far_data:
+            x = x + np.array([524288.0, 6815744.0, -3145728.0][:dim])
         closed_input = name == 'PERIODIC' and rng.random() < 0.5
         if closed_input:
             x = np.vstack([x, x[:1]])
@@ -158,7 +163,7 @@ def run(tier, seed, replay=None):
             tang = np.array([[rng.randint(-6, 6) / 2.0 for _ in range(dim)]])
         elif name == 'HERMITE':
             tang = np.array([[rng.randint(-6, 6) / 2.0 for _ in range(dim)] for _ in range(len(x))])
-        args = dict(boundary=name, x=x.tolist(), t=tpass, tangents=None if tang is None else tang.tolist())
+        args = dict(boundary=name, x=x.tolist(), t=tpass, tangents=None if tang is None else tang.tolist(), far_data=far_data)
         nontriv.add(C.case_hash(args))
         try:
             crv = cf.cubic_curve(x.copy(), bt, t=None if tpass is None else list(tpass), tangents=tang)
@@ -187,6 +192,8 @@ def run(tier, seed, replay=None):
             fail('cubic_curve', args, 'parameter range is [%r, %r], expected [%r, %r]' % (crv.start(0), crv.end(0), tt[0], tt[-1]))
             continue
         got = np.asarray(crv.evaluate(te)).reshape(len(te), dim)
+        if far_data:
+            sc = max(1.0, float(np.abs(xe - xe[0]).max())) + 1e-3 * sc      # judged against the extent of the data, not its distance from the origin
         if not close(got, xv, sc, rel=1e-7):
             fail('cubic_curve', args, 'result(t_i) differs from x_i by %g' % np.abs(got - xv).max())
             continue
@@ -217,7 +224,7 @@ def run(tier, seed, replay=None):
             kn = list(crv.knots(0))
             if len(kn) != len(tt) - 2:
                 fail('cubic_curve', args, 'FREE: expected the second and second-to-last parameter to be removed from the knots, knots = %s' % kn)
-        if name != 'PERIODIC' and tpass is not None:
+        if name != 'PERIODIC' and tpass is not None and not far_data:
             l1.append(('cubic', dict(boundary=name, bt=it % 6, t=tt, x=x, tang=tang, got=np.asarray(crv.controlpoints), knots=list(crv.knots(0, True)))))
 
     # closed C2 cubic through closed data (first point repeated at the end, parameters given): Model/InterpMore.v cubic_periodic
